@@ -94,3 +94,19 @@ contract(SFI + ".__len__",
              havoc_fields=[("self", "data", None), ("self", "finished", "bool"), ("self.it", "pos", "int")],
              decreases="iter_len(self.it) - iter_pos(self.it) + (0 if self.finished else 1)")},
          effects=_sfi_effects)
+
+
+# sequence_ensure_subscription: a value that already supports sequence subscription (a list, a
+# tuple, a SequenceFromIter - all modelled as abstract sequences) is returned as is; anything
+# else is wrapped once in a lazily pulling SequenceFromIter.
+def _ses_hook(E, env):
+    from pyvc.values import VSeq, VRef, HList
+    obj = env['obj']
+    if isinstance(obj, VSeq) or (isinstance(obj, VRef) and isinstance(E.heap[obj.addr], HList)):
+        return obj
+    return None
+
+
+contract('DocumentTemplate.DT_Util.sequence_ensure_subscription',
+         params=dict(obj=Opaque()), raises_any=True,
+         returns=Seq(lazy=True, kind='any'), call_hook=_ses_hook)
